@@ -33,6 +33,11 @@ func (o Bytes) Type() *Type {
 }
 
 // BytesNew
+// maxAllocSize bounds a single allocation requested by a Python-level
+// size argument: beyond it Go's make panics (or the runtime aborts the
+// process), so MemoryError is raised instead.
+const maxAllocSize = 1 << 40
+
 func BytesNew(metatype *Type, args Tuple, kwargs StringDict) (res Object, err error) {
 	var x Object
 	var encoding Object
@@ -98,6 +103,9 @@ no_bytes_method:
 		}
 		if size < 0 {
 			return nil, ExceptionNewf(ValueError, "negative count")
+		}
+		if size > maxAllocSize {
+			return nil, ExceptionNewf(MemoryError, "bytes(%d): too large", size)
 		}
 		return make(Bytes, size), nil
 	}
